@@ -59,6 +59,8 @@ typedef struct {
   int prime; /* -1: none; 0..3: an ADDO leaving (signed,unsigned) overflow = (prime&1, prime>>1) goes first */
   int bover;       /* the branch under test jumps over an unconditional jump: `b L1; jmp L2; L1: ...` (the shape
                       the simplifier rewrites with the reversed branch) */
+  int far;         /* the label the branch under test jumps to is more than 128 bytes away: the rel32 forms of the
+                      branch patterns (filler: a chain of add/xor on block + 240, executed on one of the two paths) */
   int press;       /* >0: register pressure, see build_case */
   uint64_t pmask;  /* defined bits of the result, for the comparison of the copies */
   opnd_t dst, x, y;
@@ -123,6 +125,7 @@ static int parse_case (char *line, case_t *c) {
     else if (strncmp (tok, "prime=", 6) == 0) c->prime = atoi (tok + 6);
     else if (strncmp (tok, "bover=", 6) == 0) c->bover = atoi (tok + 6);
     else if (strncmp (tok, "press=", 6) == 0) c->press = atoi (tok + 6);
+    else if (strncmp (tok, "far=", 4) == 0) c->far = atoi (tok + 4);
     else if (strncmp (tok, "pmask=", 6) == 0) c->pmask = (uint64_t) parse_hex (tok + 6);
     else return 0;
   }
@@ -207,11 +210,214 @@ static MIR_op_t imm_operand (fb_t *b, opnd_t *o, char kind) {
   return o->kind == 'u' ? MIR_new_uint_op (ctx, (uint64_t) o->val) : MIR_new_int_op (ctx, (int64_t) (uint64_t) o->val);
 }
 
+/* more than 128 bytes of code that no optimisation level removes or shortens: t = block[240]; 24 x (t += C_i | t ^= C_i)
+   with constants outside the imm8 range; block[240] = t.  tools/gen_c02_cases.py far_value() mirrors it. */
+#define FAR_STEPS 24
+static void far_filler (fb_t *b) {
+  MIR_context_t ctx = b->ctx;
+  MIR_reg_t t = new_reg (b, MIR_T_I64, "far");
+  app (b, MIR_new_insn (ctx, MIR_MOV, MIR_new_reg_op (ctx, t), blk (b, MIR_T_I64, 240)));
+  for (int i = 0; i < FAR_STEPS; i++)
+    app (b, MIR_new_insn (ctx, i % 2 == 0 ? MIR_ADD : MIR_XOR, MIR_new_reg_op (ctx, t), MIR_new_reg_op (ctx, t),
+                          MIR_new_int_op (ctx, 0x1234567 + i * 0x10101)));
+  app (b, MIR_new_insn (ctx, MIR_MOV, blk (b, MIR_T_I64, 240), MIR_new_reg_op (ctx, t)));
+}
+
+/* ---- special cases (opcode names starting with '@'): instructions whose documented effect is not a function of operand
+   values (stack allocation, indirect jumps, switch, calls).  Expected observations: tools/gen_c02_cases.py special_expect. */
+static MIR_op_t sp_src (fb_t *b, opnd_t *o, int slot) { /* register loaded from the block, or immediate */
+  MIR_context_t ctx = b->ctx;
+  if (o->kind == 'i' || o->kind == 'u') return imm_operand (b, o, 'i');
+  MIR_reg_t r = new_reg (b, MIR_T_I64, slot == 0 ? "x" : "y");
+  app (b, MIR_new_insn (ctx, MIR_MOV, MIR_new_reg_op (ctx, r), blk (b, MIR_T_I64, 16 * slot)));
+  return MIR_new_reg_op (ctx, r);
+}
+
+static MIR_item_t build_special (MIR_context_t ctx, case_t *c, const char *name) {
+  fb_t b;
+  MIR_type_t res_type = MIR_T_I64;
+  MIR_var_t var;
+  const char *k = c->opname + 1;
+  char hname[80], pname[80];
+  MIR_item_t helper = NULL, proto = NULL;
+  snprintf (hname, sizeof (hname), "%s_h", name);
+  snprintf (pname, sizeof (pname), "%s_p", name);
+  if (!strcasecmp (k, "CALL")) { /* helper (a, b) = a * 3 + b */
+    MIR_var_t hv[2] = {{MIR_T_I64, "a"}, {MIR_T_I64, "b"}};
+    proto = MIR_new_proto_arr (ctx, pname, 1, &res_type, 2, hv);
+    helper = MIR_new_func_arr (ctx, hname, 1, &res_type, 2, hv);
+    MIR_reg_t a = MIR_reg (ctx, "a", helper->u.func), bb = MIR_reg (ctx, "b", helper->u.func);
+    MIR_reg_t t = MIR_new_func_reg (ctx, helper->u.func, MIR_T_I64, "t");
+    MIR_append_insn (ctx, helper, MIR_new_insn (ctx, MIR_MUL, MIR_new_reg_op (ctx, t), MIR_new_reg_op (ctx, a), MIR_new_int_op (ctx, 3)));
+    MIR_append_insn (ctx, helper, MIR_new_insn (ctx, MIR_ADD, MIR_new_reg_op (ctx, t), MIR_new_reg_op (ctx, t), MIR_new_reg_op (ctx, bb)));
+    MIR_append_insn (ctx, helper, MIR_new_ret_insn (ctx, 1, MIR_new_reg_op (ctx, t)));
+    MIR_finish_func (ctx);
+  } else if (!strcasecmp (k, "CALLLD") || !strcasecmp (k, "CALLLD2")) { /* helper (ld a) = a + a [, a] */
+    int two = !strcasecmp (k, "CALLLD2");
+    MIR_type_t rt[2] = {MIR_T_LD, MIR_T_LD};
+    MIR_var_t hv[1] = {{MIR_T_LD, "a"}};
+    proto = MIR_new_proto_arr (ctx, pname, two ? 2 : 1, rt, 1, hv);
+    helper = MIR_new_func_arr (ctx, hname, two ? 2 : 1, rt, 1, hv);
+    MIR_reg_t a = MIR_reg (ctx, "a", helper->u.func);
+    MIR_reg_t t = MIR_new_func_reg (ctx, helper->u.func, MIR_T_LD, "t");
+    MIR_append_insn (ctx, helper, MIR_new_insn (ctx, MIR_LDADD, MIR_new_reg_op (ctx, t), MIR_new_reg_op (ctx, a), MIR_new_reg_op (ctx, a)));
+    if (two)
+      MIR_append_insn (ctx, helper, MIR_new_ret_insn (ctx, 2, MIR_new_reg_op (ctx, t), MIR_new_reg_op (ctx, a)));
+    else
+      MIR_append_insn (ctx, helper, MIR_new_ret_insn (ctx, 1, MIR_new_reg_op (ctx, t)));
+    MIR_finish_func (ctx);
+  }
+  var.type = MIR_T_I64;
+  var.name = "p";
+  b.ctx = ctx;
+  b.ntemp = 0;
+  b.func = MIR_new_func_arr (ctx, name, 1, &res_type, 1, &var);
+  b.f = b.func->u.func;
+  b.p = MIR_reg (ctx, "p", b.f);
+  MIR_reg_t r = new_reg (&b, MIR_T_I64, "r");
+#define RO(x) MIR_new_reg_op (ctx, x)
+#define IO(x) MIR_new_int_op (ctx, x)
+#define I3(code, a, bb, cc) app (&b, MIR_new_insn (ctx, code, a, bb, cc))
+#define I2(code, a, bb) app (&b, MIR_new_insn (ctx, code, a, bb))
+  if (!strcasecmp (k, "ALLOCA")) {
+    /* two allocations of x bytes (x >= 16): 16-byte aligned, disjoint, writable at both ends */
+    MIR_op_t size = sp_src (&b, &c->x, 0), val = sp_src (&b, &c->y, 1);
+    MIR_reg_t a1 = new_reg (&b, MIR_T_I64, "a"), a2 = new_reg (&b, MIR_T_I64, "a"), e = new_reg (&b, MIR_T_I64, "e");
+    MIR_reg_t t = new_reg (&b, MIR_T_I64, "t"), v = new_reg (&b, MIR_T_I64, "v"), d = new_reg (&b, MIR_T_I64, "d");
+    MIR_reg_t c1 = new_reg (&b, MIR_T_I64, "c"), c2 = new_reg (&b, MIR_T_I64, "c");
+    I2 (MIR_ALLOCA, RO (a1), size);
+    I3 (MIR_SUB, RO (e), size, IO (8));
+    I2 (MIR_MOV, RO (v), val);
+    I2 (MIR_MOV, MIR_new_mem_op (ctx, MIR_T_I64, 0, a1, 0, 1), RO (v));
+    I3 (MIR_ADD, RO (v), RO (v), IO (1));
+    I2 (MIR_MOV, MIR_new_mem_op (ctx, MIR_T_I64, 0, a1, e, 1), RO (v));
+    I2 (MIR_ALLOCA, RO (a2), size);
+    I3 (MIR_ADD, RO (v), RO (v), IO (1));
+    I2 (MIR_MOV, MIR_new_mem_op (ctx, MIR_T_I64, 0, a2, 0, 1), RO (v));
+    I3 (MIR_ADD, RO (v), RO (v), IO (1));
+    I2 (MIR_MOV, MIR_new_mem_op (ctx, MIR_T_I64, 0, a2, e, 1), RO (v));
+    I3 (MIR_OR, RO (t), RO (a1), RO (a2));
+    I3 (MIR_AND, RO (t), RO (t), IO (15));
+    I2 (MIR_MOV, blk (&b, MIR_T_I64, 96), RO (t)); /* 0 */
+    I3 (MIR_SUB, RO (d), RO (a1), RO (a2));
+    I3 (MIR_UGE, RO (c1), RO (d), size);
+    I3 (MIR_SUB, RO (d), RO (a2), RO (a1));
+    I3 (MIR_UGE, RO (c2), RO (d), size);
+    I3 (MIR_AND, RO (c1), RO (c1), RO (c2));
+    I2 (MIR_MOV, blk (&b, MIR_T_I64, 112), RO (c1)); /* 1 */
+    I2 (MIR_MOV, RO (r), MIR_new_mem_op (ctx, MIR_T_I64, 0, a1, 0, 1));
+    I3 (MIR_MUL, RO (t), MIR_new_mem_op (ctx, MIR_T_I64, 0, a1, e, 1), IO (3));
+    I3 (MIR_ADD, RO (r), RO (r), RO (t));
+    I3 (MIR_MUL, RO (t), MIR_new_mem_op (ctx, MIR_T_I64, 0, a2, 0, 1), IO (5));
+    I3 (MIR_ADD, RO (r), RO (r), RO (t));
+    I3 (MIR_MUL, RO (t), MIR_new_mem_op (ctx, MIR_T_I64, 0, a2, e, 1), IO (7));
+    I3 (MIR_ADD, RO (r), RO (r), RO (t));
+  } else if (!strcasecmp (k, "BLOCK")) {
+    /* y times: { bstart; alloca x bytes; use; bend }; a value kept in a register across the blocks */
+    MIR_op_t size = sp_src (&b, &c->x, 0), cnt = sp_src (&b, &c->y, 1);
+    MIR_reg_t i = new_reg (&b, MIR_T_I64, "i"), s = new_reg (&b, MIR_T_I64, "s"), a = new_reg (&b, MIR_T_I64, "a");
+    MIR_insn_t loop = MIR_new_label (ctx);
+    I2 (MIR_MOV, RO (i), IO (0));
+    I2 (MIR_MOV, RO (r), IO (0));
+    app (&b, loop);
+    app (&b, MIR_new_insn (ctx, MIR_BSTART, RO (s)));
+    I2 (MIR_ALLOCA, RO (a), size);
+    I2 (MIR_MOV, MIR_new_mem_op (ctx, MIR_T_I64, 0, a, 0, 1), RO (i));
+    I3 (MIR_MUL, RO (r), RO (r), IO (3));
+    I3 (MIR_ADD, RO (r), RO (r), MIR_new_mem_op (ctx, MIR_T_I64, 0, a, 0, 1));
+    app (&b, MIR_new_insn (ctx, MIR_BEND, RO (s)));
+    I3 (MIR_ADD, RO (i), RO (i), IO (1));
+    I3 (MIR_BLT, MIR_new_label_op (ctx, loop), RO (i), cnt);
+  } else if (!strcasecmp (k, "SWITCH")) {
+    /* switch on x in 0..4 */
+    MIR_op_t sel = sp_src (&b, &c->x, 0);
+    MIR_insn_t labs[5], le = MIR_new_label (ctx);
+    MIR_op_t sops[6];
+    if (sel.mode != MIR_OP_REG) {
+      MIR_reg_t sr = new_reg (&b, MIR_T_I64, "sel");
+      I2 (MIR_MOV, RO (sr), sel);
+      sel = RO (sr);
+    }
+    sops[0] = sel;
+    for (int i = 0; i < 5; i++) {
+      labs[i] = MIR_new_label (ctx);
+      sops[i + 1] = MIR_new_label_op (ctx, labs[i]);
+    }
+    app (&b, MIR_new_insn_arr (ctx, MIR_SWITCH, 6, sops));
+    for (int i = 0; i < 5; i++) {
+      app (&b, labs[i]);
+      I2 (MIR_MOV, RO (r), IO (100 + 7 * i));
+      if (c->far) far_filler (&b);
+      app (&b, MIR_new_insn (ctx, MIR_JMP, MIR_new_label_op (ctx, le)));
+    }
+    app (&b, le);
+  } else if (!strcasecmp (k, "JMPI")) {
+    /* t = x ? &&L2 : &&L1; goto *t  (y != 0: through a memory cell) */
+    MIR_op_t sel = sp_src (&b, &c->x, 0);
+    MIR_reg_t t = new_reg (&b, MIR_T_I64, "t");
+    MIR_insn_t l1 = MIR_new_label (ctx), l2 = MIR_new_label (ctx), ls = MIR_new_label (ctx), le = MIR_new_label (ctx);
+    app (&b, MIR_new_insn (ctx, MIR_LADDR, RO (t), MIR_new_label_op (ctx, l1)));
+    I2 (MIR_BF, MIR_new_label_op (ctx, ls), sel);
+    if (c->y.val != 0) {
+      app (&b, MIR_new_insn (ctx, MIR_LADDR, blk (&b, MIR_T_I64, 200), MIR_new_label_op (ctx, l2)));
+      I2 (MIR_MOV, RO (t), blk (&b, MIR_T_I64, 200));
+    } else
+      app (&b, MIR_new_insn (ctx, MIR_LADDR, RO (t), MIR_new_label_op (ctx, l2)));
+    app (&b, ls);
+    if (c->y.val != 0) {
+      I2 (MIR_MOV, blk (&b, MIR_T_I64, 200), RO (t));
+      app (&b, MIR_new_insn (ctx, MIR_JMPI, blk (&b, MIR_T_I64, 200)));
+    } else
+      app (&b, MIR_new_insn (ctx, MIR_JMPI, RO (t)));
+    app (&b, l1);
+    I2 (MIR_MOV, RO (r), IO (1));
+    app (&b, MIR_new_insn (ctx, MIR_JMP, MIR_new_label_op (ctx, le)));
+    app (&b, l2);
+    I2 (MIR_MOV, RO (r), IO (2));
+    app (&b, le);
+  } else if (!strcasecmp (k, "CALL")) {
+    /* r = helper (x, y), called by reference (dst r) or through a register (dst x) */
+    MIR_op_t xa = sp_src (&b, &c->x, 0), ya = sp_src (&b, &c->y, 1);
+    MIR_op_t callee = MIR_new_ref_op (ctx, helper);
+    if (c->dst.kind == 'x') {
+      MIR_reg_t fr = new_reg (&b, MIR_T_I64, "fn");
+      I2 (MIR_MOV, RO (fr), callee);
+      callee = RO (fr);
+    }
+    app (&b, MIR_new_call_insn (ctx, 5, MIR_new_ref_op (ctx, proto), callee, RO (r), xa, ya));
+  } else if (!strcasecmp (k, "CALLLD") || !strcasecmp (k, "CALLLD2")) {
+    /* long double results come back in st0 (and st1) */
+    int two = !strcasecmp (k, "CALLLD2");
+    MIR_reg_t a = new_reg (&b, MIR_T_LD, "la"), r1 = new_reg (&b, MIR_T_LD, "lr"), r2 = new_reg (&b, MIR_T_LD, "lr");
+    MIR_reg_t fr = new_reg (&b, MIR_T_I64, "fn"); /* through a register: a direct call of so small a function is inlined */
+    I2 (MIR_LDMOV, RO (a), blk (&b, MIR_T_LD, 0));
+    I2 (MIR_MOV, RO (fr), MIR_new_ref_op (ctx, helper));
+    if (two)
+      app (&b, MIR_new_call_insn (ctx, 5, MIR_new_ref_op (ctx, proto), RO (fr), RO (r1), RO (r2), RO (a)));
+    else
+      app (&b, MIR_new_call_insn (ctx, 4, MIR_new_ref_op (ctx, proto), RO (fr), RO (r1), RO (a)));
+    I2 (MIR_LDMOV, blk (&b, MIR_T_LD, 96), RO (r1));
+    if (two) I2 (MIR_LDMOV, blk (&b, MIR_T_LD, 192), RO (r2));
+    I2 (MIR_MOV, RO (r), IO (0));
+  } else {
+    snprintf (err_msg, sizeof (err_msg), "unknown special case %s", c->opname);
+    longjmp (err_jmp, 1);
+  }
+  app (&b, MIR_new_ret_insn (ctx, 1, RO (r)));
+#undef RO
+#undef IO
+#undef I3
+#undef I2
+  MIR_finish_func (ctx);
+  return b.func;
+}
+
 /* builds function <name> for case c in the current module of ctx; returns the func item */
 static MIR_item_t build_case (MIR_context_t ctx, case_t *c, const char *name) {
   fb_t b;
   MIR_type_t res_type = MIR_T_I64;
   MIR_var_t var;
+  if (c->opname[0] == '@') return build_special (ctx, c, name);
   var.type = MIR_T_I64;
   var.name = "p";
   b.ctx = ctx;
@@ -314,11 +520,13 @@ static MIR_item_t build_case (MIR_context_t ctx, case_t *c, const char *name) {
       MIR_insn_t l2 = MIR_new_label (ctx);
       app (&b, MIR_new_insn (ctx, MIR_JMP, MIR_new_label_op (ctx, l2)));
       app (&b, l1);
+      if (c->far) far_filler (&b); /* executed when the branch is taken; L2 is far from the (reversed) branch */
       app (&b, MIR_new_insn (ctx, MIR_MOV, MIR_new_reg_op (ctx, flag), MIR_new_int_op (ctx, 1)));
       app (&b, MIR_new_insn (ctx, MIR_JMP, MIR_new_label_op (ctx, le)));
       app (&b, l2);
       app (&b, MIR_new_insn (ctx, MIR_MOV, MIR_new_reg_op (ctx, flag), MIR_new_int_op (ctx, 0)));
     } else {
+      if (c->far) far_filler (&b); /* executed when the branch is not taken; L1 is far from the branch */
       app (&b, MIR_new_insn (ctx, MIR_MOV, MIR_new_reg_op (ctx, flag), MIR_new_int_op (ctx, 0)));
       app (&b, MIR_new_insn (ctx, MIR_JMP, MIR_new_label_op (ctx, le)));
       app (&b, l1);
@@ -332,6 +540,7 @@ static MIR_item_t build_case (MIR_context_t ctx, case_t *c, const char *name) {
       if (post_branch_p) { /* BT/BF/BTS/BFS on the result */
         MIR_insn_t l1 = MIR_new_label (ctx), le = MIR_new_label (ctx);
         app (&b, MIR_new_insn (ctx, find_code (ctx, c->post), MIR_new_label_op (ctx, l1), MIR_new_reg_op (ctx, rr)));
+        if (c->far) far_filler (&b);
         app (&b, MIR_new_insn (ctx, MIR_MOV, MIR_new_reg_op (ctx, flag), MIR_new_int_op (ctx, 0)));
         app (&b, MIR_new_insn (ctx, MIR_JMP, MIR_new_label_op (ctx, le)));
         app (&b, l1);
@@ -391,8 +600,8 @@ static void fill_block (case_t *c) {
       int has_b = strchr (o->form, 'b') != NULL, has_i = strchr (o->form, 'i') != NULL, has_d = strchr (o->form, 'd') != NULL;
       /* address = disp + base + index * scale: choose base (or disp / index) to hit the cell */
       int64_t addr = (int64_t) (intptr_t) cell, index = has_i ? o->index : 0, base = 0;
-      if (has_b) {
-        base = addr - (has_d ? o->disp : 0) - index * (has_i ? o->scale : 1);
+      if (has_b) { /* modulo 2^64: huge indexes wrap */
+        base = (int64_t) ((uint64_t) addr - (uint64_t) (has_d ? o->disp : 0) - (uint64_t) index * (uint64_t) (has_i ? o->scale : 1));
       } else if (has_i) { /* index * scale (+ disp) must be the address: index = addr / scale needs alignment */
         index = (addr - (has_d ? o->disp : 0)) / o->scale;
       }
@@ -505,6 +714,12 @@ static int native_ld (case_t *c, int64_t *ret) {
     int64_t f64 = flag;
     memcpy (block + 112, &f64, 8);
     *ret = flag;
+    if (c->far && (c->bover ? flag == 1 : flag == 0)) { /* what far_filler computes on the executed path */
+      uint64_t t;
+      memcpy (&t, block + 240, 8);
+      for (int i = 0; i < FAR_STEPS; i++) t = i % 2 == 0 ? t + (uint64_t) (0x1234567 + i * 0x10101) : t ^ (uint64_t) (0x1234567 + i * 0x10101);
+      memcpy (block + 240, &t, 8);
+    }
     return 1;
   }
   unsigned char *dst = c->dst.kind == 'm' ? block + 192 : block + 96;
